@@ -54,8 +54,8 @@ def writer_rules():
 decreases arguments.len() - verif_k,"""),
                 "{", f"let {text(b['x'])} = & arguments [ verif_k ] ;", G("let ghost verif_before = args@;"), "verif_k += 1 ;", *body,
                 G("""proof {
-    reveal_strlit("\\\\\\\\"); reveal_strlit("\\\\\\""); reveal_strlit("\\\\n"); reveal_strlit("\\\\r");
-    assert("\\\\\\\\"@ =~= lit_bs2()); assert("\\\\\\""@ =~= lit_bsq()); assert("\\\\n"@ =~= lit_bsn()); assert("\\\\r"@ =~= lit_bsr());
+    reveal_strlit("\\\\\\\\"); reveal_strlit("\\\\\\""); reveal_strlit("\\\\n"); reveal_strlit("\\\\r"); reveal_strlit("\\\\0");
+    assert("\\\\\\\\"@ =~= lit_bs2()); assert("\\\\\\""@ =~= lit_bsq()); assert("\\\\n"@ =~= lit_bsn()); assert("\\\\r"@ =~= lit_bsr()); assert("\\\\0"@ =~= lit_bs0());
     lemma_four_replaces_is_esc(arguments@[verif_k - 1]@);
     let sub = verif_args0.subrange(0, verif_k as int);
     assert(sub.drop_last() =~= verif_args0.subrange(0, verif_k - 1));
@@ -93,6 +93,7 @@ pub open spec fn lit_bs2() -> Seq<char> { seq!['\\', '\\'] }
 pub open spec fn lit_bsq() -> Seq<char> { seq!['\\', '"'] }
 pub open spec fn lit_bsn() -> Seq<char> { seq!['\\', 'n'] }
 pub open spec fn lit_bsr() -> Seq<char> { seq!['\\', 'r'] }
+pub open spec fn lit_bs0() -> Seq<char> { seq!['\\', '0'] }
 
 pub proof fn lemma_replace_concat(s: Seq<char>, t: Seq<char>, c: char, w: Seq<char>)
     ensures replace_char(s + t, c, w) == replace_char(s, c, w) + replace_char(t, c, w)
@@ -122,29 +123,35 @@ pub proof fn lemma_replace_two(x: char, y: char, c: char, w: Seq<char>)
     lemma_replace_concat(seq![x], seq![y], c, w);
     lemma_replace_one(x, c, w); lemma_replace_one(y, c, w);
 }
-// the escaping as the real writer performs it: four str::replace calls, backslash first
+// the escaping as the real writer performs it: five str::replace calls, backslash first
 pub open spec fn four_replaces(a: Seq<char>) -> Seq<char> {
-    replace_char(replace_char(replace_char(replace_char(a, '\\', lit_bs2()), '"', lit_bsq()), '\n', lit_bsn()), '\r', lit_bsr())
+    replace_char(replace_char(replace_char(replace_char(replace_char(a, '\\', lit_bs2()), '"', lit_bsq()), '\n', lit_bsn()), '\r', lit_bsr()), '\0', lit_bs0())
 }
 pub proof fn lemma_four_replaces_one(c: char)
     ensures four_replaces(seq![c]) == esc1(c)
 {
     lemma_replace_one(c, '\\', lit_bs2());
     if c == '\\' {
-        lemma_replace_two('\\', '\\', '"', lit_bsq()); lemma_replace_two('\\', '\\', '\n', lit_bsn()); lemma_replace_two('\\', '\\', '\r', lit_bsr());
+        lemma_replace_two('\\', '\\', '"', lit_bsq()); lemma_replace_two('\\', '\\', '\n', lit_bsn()); lemma_replace_two('\\', '\\', '\r', lit_bsr()); lemma_replace_two('\\', '\\', '\0', lit_bs0());
         assert(seq!['\\'] + seq!['\\'] =~= seq!['\\', '\\']);
     } else {
         lemma_replace_one(c, '"', lit_bsq());
         if c == '"' {
-            lemma_replace_two('\\', '"', '\n', lit_bsn()); lemma_replace_two('\\', '"', '\r', lit_bsr());
+            lemma_replace_two('\\', '"', '\n', lit_bsn()); lemma_replace_two('\\', '"', '\r', lit_bsr()); lemma_replace_two('\\', '"', '\0', lit_bs0());
             assert(seq!['\\'] + seq!['"'] =~= seq!['\\', '"']);
         } else {
             lemma_replace_one(c, '\n', lit_bsn());
             if c == '\n' {
-                lemma_replace_two('\\', 'n', '\r', lit_bsr());
+                lemma_replace_two('\\', 'n', '\r', lit_bsr()); lemma_replace_two('\\', 'n', '\0', lit_bs0());
                 assert(seq!['\\'] + seq!['n'] =~= seq!['\\', 'n']);
             } else {
                 lemma_replace_one(c, '\r', lit_bsr());
+                if c == '\r' {
+                    lemma_replace_two('\\', 'r', '\0', lit_bs0());
+                    assert(seq!['\\'] + seq!['r'] =~= seq!['\\', 'r']);
+                } else {
+                    lemma_replace_one(c, '\0', lit_bs0());
+                }
             }
         }
     }
@@ -159,6 +166,8 @@ pub proof fn lemma_four_replaces_concat(s: Seq<char>, t: Seq<char>)
     lemma_replace_concat(s2, t2, '\n', lit_bsn());
     let s3 = replace_char(s2, '\n', lit_bsn()); let t3 = replace_char(t2, '\n', lit_bsn());
     lemma_replace_concat(s3, t3, '\r', lit_bsr());
+    let s4 = replace_char(s3, '\r', lit_bsr()); let t4 = replace_char(t3, '\r', lit_bsr());
+    lemma_replace_concat(s4, t4, '\0', lit_bs0());
 }
 // what the property needs of the writer's escaping
 pub proof fn lemma_four_replaces_is_esc(a: Seq<char>)
@@ -169,7 +178,7 @@ pub proof fn lemma_four_replaces_is_esc(a: Seq<char>)
         let e = Seq::<char>::empty();
         assert(a =~= e);
         assert(replace_char(e, '\\', lit_bs2()) =~= e); assert(replace_char(e, '"', lit_bsq()) =~= e);
-        assert(replace_char(e, '\n', lit_bsn()) =~= e); assert(replace_char(e, '\r', lit_bsr()) =~= e);
+        assert(replace_char(e, '\n', lit_bsn()) =~= e); assert(replace_char(e, '\r', lit_bsr()) =~= e); assert(replace_char(e, '\0', lit_bs0()) =~= e);
     } else {
         assert(a =~= seq![a[0]] + a.drop_first());
         lemma_four_replaces_concat(seq![a[0]], a.drop_first());
@@ -287,6 +296,15 @@ pub proof fn c04_roundtrip(id: u8, args: Seq<Seq<char>>)
     lemma_record_roundtrip(args);
 }}
 
+//@ OBL C04.record.no-raw-nul
+// the loader cuts the file into records at NUL bytes (`read_until(0)`): whatever the arguments contain -- a NUL included -- the record the
+// writer emits has exactly one NUL, its last byte (opcodes are not 0: C18.opcode.table puts `nop` = 0 on the deprecation list)
+pub proof fn c04_record_no_raw_nul(args: Seq<Seq<char>>)
+    ensures forall|i: int| 0 <= i < enc_args(args).len() ==> enc_args(args)[i] != '\\0'
+{{
+    lemma_enc_args_no_nul(args);
+}}
+
 }} // verus!
 fn main() {{}}
 """
@@ -295,6 +313,7 @@ fn main() {{}}
         Obl("C04.reader.conforms", ["C04", "C18", "C19"], fn="split_string_v2", desc="split_string_v2 returns exactly finish(run_from(init, input)) of the codec state machine, Err exactly when the machine errs or ends inside quotes; all strings"),
         Obl("C04.writer.quote", ["C04", "C18"], fn="fix_arg_if_needed", desc="fix_arg_if_needed wraps its argument in double quotes and nothing else"),
         Obl("C04.writer.conforms", ["C04"], fn="repr_instruction", desc="CompiledItem::repr (binary form) writes [opcode] ++ enc_args(arguments) ++ [NUL] where enc_arg escapes backslash and quote and wraps in quotes after one space; all argument vectors"),
+        Obl("C04.record.no-raw-nul", ["C04", "C18"], fn="c04_record_no_raw_nul", desc="lemma: the encoded arguments of a record contain no NUL byte, whatever characters the arguments contain (records are cut at NUL)"),
         Obl("C04.roundtrip", ["C04"], fn="c04_roundtrip", desc="lemma: for all argument vectors (any characters) the loader's reader applied to the writer's record payload yields exactly the arguments"),
     ]
     return gen, obls, log
@@ -304,5 +323,5 @@ UNITS = [VUnit("c04_codec", ["C04", "C18", "C19"], "bytecode argument codec: rea
 UNITS[0].assumes = [
     "strings are modelled as sequences of chars (R1); UTF-8 encoding/decoding of the file bytes (String::from_utf8_lossy, write!) is not modelled",
     "std contracts assumed: char::is_whitespace(' ') and not for '\"' and '\\\\'; str::replace(char,&str) = replace_char; format! concatenates its arguments",
-    "file framing (read_until(0), record patterns of get_functions) is covered only by the lemma's statement about the payload after the first space; NUL inside an argument is outside the property",
+    "file framing (read_until(0), record patterns of get_functions) is covered only by the lemma's statement about the payload after the first space; a NUL inside an argument is escaped like any other special character (C04.record.no-raw-nul)",
 ]
